@@ -17,6 +17,8 @@ package blockstore
 //@   loop[0] invariant open [C04]: !old(b.ronly.closed) && !old(b.finalized)
 //@   call[store.ShouldPut#0] assert options [C04]: arg0 == b.idx && arg1 == c && arg2 == b.opts.MaxIndexCidSize && arg3 == b.opts.StoreIdentityCIDs && arg4 == b.opts.BlockstoreAllowDuplicatePuts && arg5 == b.opts.BlockstoreUseWholeCIDs
 //@   call[store.ShouldPut#0] assert decided_under_write_lock [C08]: held(b.ronly.mu) == 2
+//@   let admit, aerr := call[store.ShouldPut#0]
+//@   call[util.LdWrite#0] assert only_admitted_blocks_are_written [C01,C04]: aerr == nil && admit
 //@   call[util.LdWrite#0] assert written_under_write_lock [C08]: held(b.ronly.mu) == 2
 //@   call[InsertionIndex.InsertNoReplace#0] assert indexed_under_write_lock [C08]: held(b.ronly.mu) == 2
 //@   call[util.LdWrite#0] assert section [C01,C05]: ref(arg0) == ref(b.dataWriter) && len(arg1) == 2 && bytesval(arg1[0]) == cidbytes(c) && ref(arg1[1]) == blockdata(bl)
@@ -85,6 +87,7 @@ package blockstore
 //@   let rverr := call[store.ResumableVersion#0]
 //@   ensures header_layout [C05]: err == nil ==> result0.header.DataOffset == wrap_u64(51 + result0.opts.DataPadding) && result0.header.DataSize == 0 && result0.header.IndexOffset == wrap_u64(wrap_u64(51 + result0.opts.DataPadding) + result0.opts.IndexPadding)
 //@   ensures payload_origin [C01,C05]: err == nil ==> result0.dataWriter != nil && wbase(result0.dataWriter) == ite(result0.opts.WriteAsCarV1, 0, wrap_s64(result0.header.DataOffset))
+//@   ensures reads_where_it_writes [C04,C07,C12]: err == nil ==> sbase(result0.ronly.backing) == wbase(result0.dataWriter)
 //@   ensures wiring [C04,C07]: err == nil ==> result0.f == f && result0.idx != nil && ref(result0.ronly.idx) == ref(result0.idx) && !result0.finalized && !result0.ronly.closed
 //@   call[store.Resume#0] assert args [C12]: ref(arg0) == ref(f) && ref(arg1) == ref(rwbs.ronly.backing) && ref(arg2) == ref(rwbs.dataWriter) && ref(arg3) == ref(rwbs.idx) && arg4 == roots && arg5 == rwbs.header.DataOffset && arg6 == rwbs.opts.WriteAsCarV1 && arg7 == rwbs.opts.MaxAllowedHeaderSize && arg8 == rwbs.opts.ZeroLengthSectionAsEOF
 //@   call[store.Resume#0] assert version_checked [C12]: rverr == nil
